@@ -135,6 +135,7 @@ R = {
     "own_layout_input": tiered(extra.own_layout_input),
     "own_fresh_fragment": tiered(extra.own_fresh_fragment),
     "prov_after_branch_order": tiered(extra.prov_after_branch_order),
+    "prov_hcount_bookkeeping_sampler": tiered(extra.prov_hcount_bookkeeping_sampler),
     "sent_numeric_attrs": tiered(extra.sent_numeric_attrs),
     "ord_complete_loops": tiered(extra.ord_complete_loops),
     "own_mutable_defaults_layout": named("own_mutable_defaults_layout", own.own_mutable_defaults, "quick", tuple(own.SKIP_MODULES), 2),
@@ -218,7 +219,7 @@ prop("C08", ["ring_marker_text", "tt_layer_format", "da_writer", "emit_format_bo
      "equality of the re-read fragment graphs (pysmiles writes and parses the atoms); coarse fragments are written with the fragment's name in place of "
      "each node's own name (seen while reading, outside the rules)",
      floors={"TOK.ring-marker-text": 1, "TT.layer-format": 1, "DA.writer": 6, "EMIT.write_graph": 2, "EMIT.format_bonding": 4, "TAB.fragment-symbols": 2, "SENT.pending-order": 1, "TOK.T5-descriptor": 6})
-prop("C09", ["ord_resolve_phases", "ord_sample_finalise", "ord_hydrogens", "tab_copy_attrs", "prov_h_inherit", "sent_numeric_attrs", "ord_complete_loops", "own_templates_sampler", "prov_hcount_bookkeeping", "prov_kept_hydrogens", "own_mutable_defaults"],
+prop("C09", ["ord_resolve_phases", "ord_sample_finalise", "ord_hydrogens", "tab_copy_attrs", "prov_h_inherit", "sent_numeric_attrs", "ord_complete_loops", "own_templates_sampler", "prov_hcount_bookkeeping", "prov_hcount_bookkeeping_sampler", "prov_kept_hydrogens", "own_mutable_defaults"],
      "every all-atom path of resolver and sampler passes the hydrogen rebuild after the last connectivity change and before renumbering; inside the rebuild: "
      "reset hcount to 0 < fill_valence(respect_hcount=False) < add_explicit_hydrogens, aromatic correction < fill; keep_bonding unused; hydrogens inherit attributes",
      "the numbers themselves (valence lists, charges, aromatic correction) are pysmiles'",
@@ -257,7 +258,7 @@ prop("C15", ["prov_fragment_attrs", "tt_relative_dispatch", "prov_slash_marks", 
      "remapped through the relabelling map and shifted on merge; slash marks are recorded for the atoms around them; chirality annotations are copied",
      "the cis/trans relation itself (pysmiles' _annotate_ez_isomers)",
      floors={"TT.relative-dispatch": 1, "PROV.slash-marks": 4, "ORD.resolve-stereo": 3, "PROV.relative-attr": 3, "TOK.T6-slash": 1})
-prop("C16", ["det_loop_state_sampler", "prov_sampler_setup", "da_self_attrs_sampler", "da_sampler", "tt_complement", "prov_growth_edge", "prov_open_bonds", "own_templates_sampler", "ord_sample_finalise", "prov_sort_key", "det_shared_state_sampler"],
+prop("C16", ["det_loop_state_sampler", "prov_sampler_setup", "da_self_attrs_sampler", "da_sampler", "tt_complement", "prov_growth_edge", "prov_open_bonds", "own_templates_sampler", "ord_sample_finalise", "prov_sort_key", "det_shared_state_sampler", "prov_hcount_bookkeeping_sampler"],
      "complementarity relation over 160 abstract states; growth step: one merge and one bond on every path, bond between chosen site atom and the copy of "
      "the partner's atom, order and recorded pair from the chosen descriptors, both descriptors consumed on their own atoms; templates are never mutated "
      "and their attribute values never shared into the molecule; the open-descriptor index is rebuilt from the molecule before every step and files each "
